@@ -31,6 +31,8 @@ type c14Scenario struct {
 	Poll   func() error // activity 1
 	Closer func()
 	// a schedule left both activities parked for good: the node cannot be used (or closed) any more
+	slowSend         time.Duration // when > 0: the request's first board send of the next schedule takes this long
+	apiOps           []string      // the request's sequence of gated calls in a serial run
 	poisoned         bool
 	deadlock         string
 	deadlockReported bool
@@ -93,12 +95,25 @@ func (s *c14Scenario) runSchedule(first int, plan []int) (final string, trace st
 	}
 	s.reset()
 	b := sched.NewBaton(first, plan)
-	gate := func(op, key string, val []byte) string { b.Point(); return "" }
+	slow := s.slowSend
+	apiGoid := int64(-1)
+	gate := func(op, key string, val []byte) string {
+		b.Point()
+		if slow > 0 && op == "send" && sched.Goid() == apiGoid {
+			// delay injection: the board is slow for the request's post (the request holds the node's lock)
+			time.Sleep(slow)
+			slow = 0
+		}
+		return ""
+	}
 	s.V.State.SetGate(gate)
 	s.V.NB.SetGate(gate)
 	var wg sync.WaitGroup
 	run := func(id int, f func() error) {
 		defer wg.Done()
+		if id == 0 {
+			apiGoid = sched.Goid()
+		}
 		b.Enter(id)
 		defer b.Exit(id)
 		defer func() {
@@ -135,13 +150,17 @@ func (s *c14Scenario) serial(first int) (string, [2]int) {
 	s.reset()
 	var pts [2]int
 	cnt := 0
-	gate := func(op, key string, val []byte) string { cnt++; return "" }
+	var ops []string
+	gate := func(op, key string, val []byte) string { cnt++; ops = append(ops, op); return "" }
 	s.V.State.SetGate(gate)
 	s.V.NB.SetGate(gate)
 	acts := []func() error{s.API, s.Poll}
 	cnt = 0
 	_ = acts[first]()
 	pts[first] = cnt
+	if first == 0 {
+		s.apiOps = append([]string{}, ops...)
+	}
 	cnt = 0
 	_ = acts[1-first]()
 	pts[1-first] = cnt
@@ -195,6 +214,9 @@ func checkC14(c *Ctx) {
 				}
 				return
 			}
+			if s.slowSend > 0 {
+				trace += "|slow-send"
+			}
 			if seen[trace] {
 				return
 			}
@@ -229,6 +251,18 @@ func checkC14(c *Ctx) {
 						try(first, []int{s1, s2, s3})
 					}
 				}
+			}
+		}
+		// one more schedule with a delay injected: the request is pre-empted right before its first board send
+		// (it holds the node's lock), the poller starts, and the send then takes 0.8 s - a slow board. The
+		// verdict is the same state comparison; the delay only widens the window.
+		for i, op := range s.apiOps {
+			if op == "send" {
+				s.slowSend = 800 * time.Millisecond
+				try(0, []int{i})
+				s.slowSend = 0
+				c.Add("schedules_with_a_slow_board_send", 1)
+				break
 			}
 		}
 		c.Add("schedules_run", runs)
